@@ -176,7 +176,13 @@ class Scheduler(BaseScheduler[Job, Callable[..., None]]):
             headings = [
                 f"max_exec={self.__max_exec if self.__max_exec else float('inf')}",
                 f"tzinfo={self.__tz_str}",
-                f"priority_function={self.__priority_function.__name__}",
+                "priority_function={0}".format(
+                    getattr(
+                        self.__priority_function,
+                        "__name__",
+                        type(self.__priority_function).__name__,
+                    )
+                ),
                 f"#jobs={len(self.__jobs)}",
             ]
             return headings
